@@ -203,6 +203,35 @@ def legal (h : Header) : Bool :=
     | [e] => e.id == 0
     | _ => false
 
+/-- sane fixed fields (the part of C01's domain the accessors never touch) -/
+def fixedOk (h : Header) : Bool :=
+  h.version.toNat < 4 && h.payloadType.toNat < 128 && h.csrc.length ≤ 15
+
+/-- the start states the property quantifies over: a struct literal that satisfies `Inv` with sane
+    fixed fields (fresh, preset profile, preset legal elements), or any bytes that decode — into a
+    receiver that decoded `prevs` before -/
+def startDomain (s : Start) : Bool :=
+  match s with
+  | .hdr h => legal h && fixedOk h
+  | .wire _ _ => (startHeader s).isSome
+
+/-- … minus the one case the proof does not cover: a one-byte wire image that carries an element
+    with id 0 (header byte 0x01–0x0F), which the parser lets through and SetExtension refuses -/
+def startCovered (s : Start) : Bool :=
+  startDomain s &&
+  match s with
+  | .hdr _ => true
+  | .wire _ _ =>
+    match startHeader s with
+    | some h => !(h.extension && h.extProfile == profileOneByte && h.exts.any (·.id == 0))
+    | none => false
+
+/-- the block after the history fits the 16-bit word count of the wire format -/
+def sizeOk (s : Start) (ops : List Op) : Bool :=
+  match finalHeader s ops with
+  | some h => extBodySize h ≤ 65535 * 4
+  | none => false
+
 /-- `Inv` with distinct ids (headers that did not come from the wire) -/
 def legalD (h : Header) : Bool := legal h && (h.exts.map (·.id)).Nodup
 
